@@ -231,29 +231,29 @@ def generate():
     emap_ro = in_child(errors_map_probe)
     out = []
     out.append('/-- attributes `ts_props` made thread-local on `Request`, in the order `init_wrapper` resets them -/')
-    out.append(f'def requestTsProps : List String := {llist([lstr(x) for x in rq])}')
+    out.append(f'def tsRequestProps : List String := {llist([lstr(x) for x in rq])}')
     out.append('/-- attributes `ts_props` made thread-local on `Response` -/')
-    out.append(f'def responseTsProps : List String := {llist([lstr(x) for x in rs])}')
+    out.append(f'def tsResponseProps : List String := {llist([lstr(x) for x in rs])}')
     out.append('/-- the slot holding the per-instance store -/')
-    out.append(f'def requestStoreName : String := {lstr(rq_store)}')
-    out.append(f'def responseStoreName : String := {lstr(rs_store)}')
+    out.append(f'def tsRequestStoreName : String := {lstr(rq_store)}')
+    out.append(f'def tsResponseStoreName : String := {lstr(rs_store)}')
     out.append('/-- the per-instance stores are `threading.local` objects -/')
-    out.append(f'def storesAreThreadLocal : Bool := {lbool(rq_local and rs_local)}')
+    out.append(f'def tsStoresAreThreadLocal : Bool := {lbool(rq_local and rs_local)}')
     out.append('/-- `HeaderDict._ts` is a `threading.local` -/')
-    out.append(f'def headerDictTsThreadLocal : Bool := {lbool(hd_local)}')
+    out.append(f'def tsHeaderDictThreadLocal : Bool := {lbool(hd_local)}')
     out.append('/-- plain (non thread-local) slots and module objects touched while serving, with what a probe of\n'
                'seven request kinds served three times observed: `read-only` (same object, same content),\n'
                '`idempotent` (re-created or rewritten with equal content), `mutated` -/')
-    out.append('def sharedTouched : List (String × String × String) := ' +
+    out.append('def tsSharedTouched : List (String × String × String) := ' +
                llist([f'({lstr(o)}, {lstr(s)}, {lstr(k)})' for o, s, k in shared]))
     out.append('/-- the `HTTPError` objects of `DefaultConfig.errors_map`, shared by every application and thread:\n'
                'exception class, status code, status line, body, headers, and whether the object carries no\n'
                'cookies, exception or traceback -/')
-    out.append('def errorsMap : List (String × Int × String × String × List (String × String) × Bool) := ' +
+    out.append('def tsErrorsMap : List (String × Int × String × String × List (String × String) × Bool) := ' +
                llist(['(%s, %d, %s, %s, %s, %s)' % (lstr(n), c, lstr(l), lstr(b),
                                                     llist(['(%s, %s)' % (lstr(k), lstr(v)) for k, v in h]), lbool(p))
                       for n, c, l, b, h, p in emap]))
     out.append('/-- a probe that makes requests fail onto every mapped error (HTML, JSON, debug pages, a custom\n'
                'error handler, two applications) left the shared objects as they were -/')
-    out.append(f'def errorsMapReadOnly : Bool := {lbool(emap_ro)}')
+    out.append(f'def tsErrorsMapReadOnly : Bool := {lbool(emap_ro)}')
     return '\n'.join(out) + '\n'
